@@ -1212,8 +1212,26 @@ def rule_kindmissing(ctx) -> RuleResult:
             res.report(f"core.groupby_scan|identity-shortcut-kinds|{''.join(bad)}", f.where(st), f.qualname,
                        f"the input is returned unchanged when '{norm(st.test)[:70]}', which holds for dtype kinds {''.join(bad)}: those have a missing value "
                        "(c: NaN, m/M: NaT, O: None/NaN), so ffill / bfill of a datetime64 array with NaT comes back unfilled")
+    # second obligation: a shortcut "every position is its own group" hands the values on without scanning them.  That is the scan
+    # itself for fills, but a NaN-skipping accumulation (nancumsum) of a lone NaN is the identity: the shortcut must substitute it.
+    for st in walk_own(f.node):
+        if not isinstance(st, ast.If) or "grp_shape" not in norm(st.test) and ".shape[-1] == 1" not in norm(st.test):
+            continue
+        rets = [r for r in ast.walk(st) if isinstance(r, ast.Return) and r.value is not None and arr in names_in(r.value)]
+        if not rets:
+            continue
+        n += 1
+        body_txt = " ".join(norm(b) for b in st.body)
+        substitutes = ("isnull(" in body_txt or "nan_to_num" in body_txt or "np.isnan(" in body_txt) and ("identity" in body_txt or "np.where" in body_txt)
+        fills_only = any(k in norm(st.test) for k in ("is_fill", "ffill", "bfill", "concat_then_scan"))
+        res.inst(f"groupby_scan: singleton-group shortcut 'if {norm(st.test)[:50]}': substitutes the identity for missing values: {substitutes}; restricted to fills: {fills_only}",
+                 f"singleton|{st.lineno}")
+        if not substitutes and not fills_only:
+            res.report("core.groupby_scan|singleton-shortcut-keeps-nan", f.where(st), f.qualname,
+                       f"when '{norm(st.test)[:60]}' the values are returned unscanned for every scan; for the NaN-skipping accumulation (nancumsum) a lone NaN "
+                       "must become the identity: groupby_scan([1, nan, 2], by=[0, 1, 2], func='nancumsum') returns [1, nan, 2], NumPy's nancumsum per group gives [1, 0, 2]")
     if n == 0:
-        res.notes.append("groupby_scan has no identity shortcut on dtype.kind: rule not applicable")
+        res.notes.append("groupby_scan has no identity shortcut: rule not applicable")
         res.min_instances = 0
     return res
 
